@@ -29,6 +29,15 @@ def c16Constraint : Handler := fun j => do
   | some out => return Json.mkObj [("out", sc out)]
   | none => return Json.mkObj [("diag", "unknown enum placeholder")]
 
+def c16Guard : Handler := fun j => do
+  let owner ← getStr j "owner"
+  let col ← getStr j "column"
+  let value ← getStr j "value"
+  let enums := (j.getObjVal? "enums").toOption.getD (Json.mkObj [])
+  match guardConstraints (litOf enums) (cs owner) (cs col) (cs value) with
+  | some out => return Json.mkObj [("out", strs (out.map sc))]
+  | none => return Json.mkObj [("diag", "unknown enum placeholder")]
+
 def c16Classify : Handler := fun j => do
   let comments ← getStrList j "comments"
   let c := classify (comments.map cs)
